@@ -313,9 +313,18 @@ def run_form(case, ctx, rng):
         # of the positions the integration points have now
         tvec = np.zeros(3)
         tvec[:dim] = rng.uniform(1, 3, dim)
+        motion = ["translate", "rotate", "stretch"][case["index"] % 3]
         with ctx.monitored("no-exception", key + "/after-translate/raised"):
             with quiet():
-                mesh.Translate(*tvec)
+                if motion == "translate":
+                    mesh.Translate(*tvec)
+                elif motion == "rotate":
+                    # (in the plane for 2-D meshes, so that the group stays two-dimensional)
+                    mesh.Rotate(float(rng.uniform(20, 160)), mesh.center, (0, 0, 1) if dim == 2 else tuple(rng.normal(size=3)))
+                else:
+                    S_ = np.eye(3)
+                    S_[:dim, :dim] = np.diag(rng.uniform(0.5, 2.0, dim)) + 0.2 * rng.uniform(-1, 1, (dim, dim))
+                    mesh.coord = mesh.coord @ S_.T  # gradients and jacobians change
                 X2 = np.asarray(g.Get_GaussCoordinates_e_pg(mt))
                 c2 = 1.0 + X2 @ c_form[1]
                 if form == "diffusion":
@@ -330,7 +339,7 @@ def run_form(case, ctx, rng):
                 name, fn = next(iter(spellings.items()))
                 got = np.asarray((LinearForm if linear else BiLinearForm)(fn).Integrate_e(field))
         got = got.reshape(ref2.shape) if got.size == ref2.size else got
-        ctx.check("integrate-vs-operator", relerr(got, ref2, scale=np.abs(ref2).max()), TOL, f"{key}/{name}/integrate@after-translate", et=et, mt=mtname, shift=tvec)
+        ctx.check("integrate-vs-operator", relerr(got, ref2, scale=np.abs(ref2).max()), TOL, f"{key}/{name}/integrate@after-{motion}", et=et, mt=mtname, shift=tvec)
         ctx.event("form-reintegrated-after-mesh-motion")
     if form in ("elasticity", "vector-advection", "vector-diffusion") and dof_n == dim:
         # the gradient used while assembling (superposition of the basis gradients) and the gradient of an evaluated field agree
